@@ -778,6 +778,7 @@ func (w *world) waitDrops() {
 			}
 		}
 		if !pending {
+			w.cleanupsFinished()
 			return
 		}
 		if time.Now().After(deadline) {
@@ -786,6 +787,46 @@ func (w *world) waitDrops() {
 			return
 		}
 		time.Sleep(50 * time.Microsecond)
+	}
+}
+
+// cleanupsFinished: the clean-up goroutines the authenticator / authorizer started (goroutines CREATED by a function of
+// their packages) have unlinked their keys; give them the chance to finish whatever else they do after that, so that
+// "the cluster's clean-up has run" means the whole goroutine has run. Waiting ones (state chan receive / select: their
+// cluster has not stopped) do not count. One-sided: after 30 ms the history simply goes on.
+func (w *world) cleanupsFinished() {
+	deadline := time.Now().Add(30 * time.Millisecond)
+	for {
+		if w.stackBuf == nil {
+			w.stackBuf = make([]byte, 1<<20)
+		}
+		n := goruntime.Stack(w.stackBuf, true)
+		for n >= len(w.stackBuf) && len(w.stackBuf) < 1<<30 {
+			w.stackBuf = make([]byte, 4*len(w.stackBuf))
+			n = goruntime.Stack(w.stackBuf, true)
+		}
+		active := false
+		for _, blk := range strings.Split(string(w.stackBuf[:n]), "\n\n") {
+			if !strings.Contains(blk, "created by github.com/kubewharf/kubegateway/pkg/gateway/authorization/webhook.") &&
+				!strings.Contains(blk, "created by github.com/kubewharf/kubegateway/pkg/gateway/authentication/token/webhook.") {
+				continue
+			}
+			i, j := strings.IndexByte(blk, '['), strings.IndexByte(blk, ']')
+			if i < 0 || j < i {
+				continue
+			}
+			state := blk[i+1 : j]
+			if k := strings.IndexByte(state, ','); k >= 0 {
+				state = state[:k]
+			}
+			if state != "chan receive" && state != "select" {
+				active = true
+			}
+		}
+		if !active || time.Now().After(deadline) {
+			return
+		}
+		goruntime.Gosched()
 	}
 }
 
